@@ -58,6 +58,8 @@ func (s PSpec) short() string {
 		return fmt.Sprintf("gs(%d,%v,%v)", len(s.Cid)/2, s.VD, s.FR)
 	case "unknown":
 		return fmt.Sprintf("u%x/%d", s.Code, len(s.Body)/2)
+	case "unknown-raw":
+		return fmt.Sprintf("Unknown{%#x,%s}", s.Code, s.Body)
 	}
 	return s.K
 }
